@@ -277,3 +277,58 @@ Example f_sleeper_with_pending_waker :
   f_pc (f_thr s 0%nat) = FRBlocked /\ f_wcur s <> f_reg (f_thr s 0%nat) /\
   f_pending (f_pc (f_thr s 1%nat)) = true.
 Proof. vm_compute. repeat split; try reflexivity. discriminate. Qed.
+
+(* ---------------- futex waits that return early (EINTR / spurious wake-up) ---------------- *)
+
+(* All theorems above quantify over the schedule choices 2 (interrupted) and 3 (spurious return)
+   of a wait that would block.  What such a return does: nothing but send the reader back into its
+   loop -- it does not give up (its script is unchanged), it does not consume (read_cursor is
+   unchanged), and its next operation is the fresh load of write_cursor. *)
+Lemma f_early_return_rechecks s t ch s' l :
+  f_pc (f_thr s t) = FRWait -> f_wcur s = f_reg (f_thr s t) -> (ch = 2 \/ ch = 3)%nat ->
+  fstep s t ch = Some (s', l) ->
+  f_pc (f_thr s' t) = FRSeg /\ f_k (f_thr s' t) = f_k (f_thr s t) /\ f_pend (f_thr s' t) = [] /\
+  f_rcur s' = f_rcur s /\ f_wcur s' = f_wcur s /\
+  (forall u, u <> t -> f_thr s' u = f_thr s u).
+Proof.
+  intros Epc Eq Hch Hs. unfold fstep in Hs.
+  destruct (Nat.leb (f_n s) t); [discriminate|]. rewrite Epc in Hs. cbv zeta in Hs.
+  rewrite Eq, Z.eqb_refl in Hs.
+  destruct Hch as [-> | ->]; simpl in Hs; inv_some Hs; simpl; rewrite upd_same;
+    (repeat split; try reflexivity; intros u Hu; apply upd_other; assumption).
+Qed.
+
+(* the reader takes a message only on the strength of a check that found the channel non-empty *)
+Definition f_take_ok (s : fsys) : Prop :=
+  forall t, f_pc (f_thr s t) = FRStore -> f_reg (f_thr s t) <> ridx (f_rcur s + 1) (f_cap s).
+
+Lemma f_take_step s t ch s' l : FInv s -> f_take_ok s -> fstep s t ch = Some (s', l) -> f_take_ok s'.
+Proof.
+  intros [Hrole _ _ _ _] Hok Hs. unfold fstep in Hs.
+  destruct (Nat.leb (f_n s) t) eqn:Hlt; [discriminate|]. cbv zeta in Hs.
+  destruct (f_pc (f_thr s t)) eqn:Epc; step_cases Hs; try discriminate; inv_some Hs;
+    intros a Ha; upd_all; try discriminate;
+    try (apply Hok; assumption);
+    try (apply Z.eqb_neq; assumption).
+  (* FRStore by the only reader: nobody else is at FRStore *)
+  exfalso. assert (a = 0%nat) by (apply Hrole; rewrite Ha; reflexivity).
+  assert (t = 0%nat) by (apply Hrole; rewrite Epc; reflexivity). congruence.
+Qed.
+
+Theorem chan_futex_take_only_after_nonempty_check_all n cap wl nreads wk sched :
+  f_take_ok (exec fsys fstep (finit n cap wl nreads wk) sched).
+Proof.
+  assert (H : forall s, FInv s /\ f_take_ok s ->
+              FInv (exec fsys fstep s sched) /\ f_take_ok (exec fsys fstep s sched)).
+  { apply (inv_exec fsys fstep (fun s => FInv s /\ f_take_ok s)).
+    intros s t c s' l [Hi Hk] Hs. split; [eapply fstep_inv; eauto|eapply f_take_step; eauto]. }
+  apply H. split; [apply finit_inv|]. intros [|t]; simpl; discriminate.
+Qed.
+
+(* non-vacuity: interrupted, then spuriously returned, then really asleep, then woken by the write *)
+Example f_interrupted_reader_rechecks_and_sleeps :
+  let s1 := exec fsys fstep f_demo [(0,0);(0,0);(0,0);(0,2); (0,0);(0,0);(0,0);(0,3); (0,0);(0,0);(0,0);(0,0)]%nat in
+  let s2 := exec fsys fstep s1 [(1,0);(1,0);(1,0);(1,0);(1,0);(1,0)]%nat in
+  f_pc (f_thr s1 0%nat) = FRBlocked /\ f_k (f_thr s1 0%nat) = 1%nat /\ f_rcur s1 = 3 /\
+  f_pc (f_thr s2 0%nat) = FRSeg /\ f_wcur s2 = 1.
+Proof. vm_compute. repeat split; reflexivity. Qed.
